@@ -117,7 +117,9 @@ BOUNDED_STANDINS = {
     'C07': [dict(name='expression-parser', script='pyvc/native/bounded_c07.py', quick=['4'], thorough=['5'],
                  what='the recursive-descent parser (_parse_e.._parse_e4, _match, _lexical_analysis): every token sequence '
                       'up to the bound over a 17-symbol alphabet, real parser+evaluator against a reference evaluator '
-                      'written from the precedence table of the statement',
+                      'written from the precedence table of the statement; plus every literal notation (decimal, $ / 0x / '
+                      'trailing-H hex, % / b binary, quoted character) for the values 0..599 and four large ones, alone and '
+                      'inside an expression',
                  why='list-mutating recursive descent over regex-lexed tokens is outside the VC generator\'s subset')],
     'C16': [dict(name='listing-byte-rows', script='pyvc/native/bounded_c16.py', quick=['64'], thorough=['400'],
                  what='ListingPrettyPrinter._generate_bytecode_line_string: every length up to the bound x row widths 1..8, '
